@@ -137,7 +137,15 @@ func gen(t *rapid.T) (*scen.Scenario, []string) {
 		{Kind: "pong"}, {Kind: "ack"}, {Kind: "state-info"}, {Kind: "all-info"}, {Kind: "detailed-info"},
 		{Kind: "update", ContentRelated: true}, {Kind: "updates-too-long", ContentRelated: true},
 	}
-	for _, st := range answers {
+	pingAt := -1
+	if rapid.IntRange(0, 2).Draw(t, "ping") > 0 {
+		pingAt = rapid.IntRange(0, len(answers)).Draw(t, "pingat")
+		cls = append(cls, "client-ping")
+	}
+	for ai, st := range answers {
+		if ai == pingAt {
+			steps = append(steps, scen.Step{Op: "ping"})
+		}
 		steps = append(steps, st)
 		if st.Op == "answer" && rapid.IntRange(0, 2).Draw(t, "push") == 0 {
 			p := pushKinds[rapid.IntRange(0, len(pushKinds)-1).Draw(t, "pushkind")]
@@ -151,6 +159,9 @@ func gen(t *rapid.T) (*scen.Scenario, []string) {
 				cls = append(cls, "server-history:service-push")
 			}
 		}
+	}
+	if pingAt == len(answers) {
+		steps = append(steps, scen.Step{Op: "ping"})
 	}
 	steps = append(steps, scen.Step{Op: "await-calls"}, scen.Step{Op: "probe"}, scen.Step{Op: "await-acks"})
 	if rapid.IntRange(0, 3).Draw(t, "reconnect") == 0 {
